@@ -363,6 +363,9 @@ func drive(t *testing.T, rng *rand.Rand, cfg Cfg, o driveOpts, sum *summary, tf 
 						if cfg.Stream == 0 || o.Clean {
 							bl = 70000
 						}
+						if ps := w.K[e].PeekSize(); ps >= 0 && rng.Intn(3) == 0 {
+							bl = ps // the raw-core idiom: a buffer of exactly PeekSize() bytes
+						}
 						if do(Act{Name: "Recv", E: e, A: bl}).Ret < 0 {
 							break
 						}
